@@ -77,6 +77,16 @@ def impl_eval(case):
     for n in range(0, len(data) + 1, step):
         back, exc = read_all(mciipm.VbsReader(io.BytesIO(data[:n]), blocked=blocked))
         parts.append(f'{len(back)}:{common.sig(b"".join(back))}:{render_end(exc)}')
+        if why is None and (n % 3 == 0 or len(data) - n < 12 or n < 12):
+            # the list-returning convenience function on the same bytes: the same records, or the library error
+            try:
+                lst, fexc = (mciipm.vbs_bytes_to_list(data[:n], blocked=True) if blocked else mciipm.vbs_bytes_to_list(data[:n])), None
+            except Exception as ex:  # noqa
+                lst, fexc = None, ex
+            if fexc is not None and not isinstance(fexc, mciipm.MciIpmDataError):
+                why = f'cut at {n}: vbs_bytes_to_list ended with {type(fexc).__name__}, not the library data error'
+            elif (fexc is None) != (exc is None) or (fexc is None and lst != back):
+                why = f'cut at {n}: vbs_bytes_to_list and VbsReader disagree on the truncated bytes'
         if why is None:
             k = expected_count(recs, blocked, n, len(data))
             if back != recs[:k]:
